@@ -279,6 +279,26 @@ func genText(t *rapid.T, label string, maxLen int) string {
 	for i := range rs {
 		rs[i] = alpha[rapid.IntRange(0, len(alpha)-1).Draw(t, label+"-ch")]
 	}
+	if rapid.IntRange(0, 13).Draw(t, label+"-edgespace") == 0 {
+		// a free text is taken as it stands: a line break or blank at its end (what a YAML block scalar or a pasted value
+		// brings along), at its start or inside it is part of the text
+		switch rapid.IntRange(0, 6).Draw(t, label+"-edgekind") {
+		case 0:
+			return string(rs) + "\n"
+		case 1:
+			return string(rs) + "\r\n"
+		case 2:
+			return string(rs) + " "
+		case 3:
+			return " " + string(rs)
+		case 4:
+			return string(rs) + "\n" + string(rs)
+		case 5:
+			return string(rs) + "\t"
+		default:
+			return "\n" + string(rs)
+		}
+	}
 	return string(rs)
 }
 
